@@ -100,9 +100,12 @@ for _nm, _s in (("minor_unison", -1), ("major_unison", 0), ("augmented_unison", 
        params={"note": "str"},
        requires="is_name(note)",
        returns="str",
+       **({"result_is": "note"} if _s == 0 else {}),
        ensures=[("letter", "result[0] == note[0]"),
                 ("semitones", "pc(result) == (pc(note) + %d) %% 12" % _s),
                 ("valid-name", "is_name(result)"),
+                ("net", "net(result) == net(note) + %d" % _s),
+                ("canonical-kept", "implies(canon(note), canon(result))"),
                 ("never-mixes-at-most-six--outside-known-finding",
                  "implies(canon(note) and abs(net(note) + %d) <= 6, canon(result) and len(result) <= 7)" % _s)],
        properties=["C02"], battery="names")
@@ -141,3 +144,71 @@ _c("is_dissonant",
              "result == (not (semis(note1, note2) in (0, 7, 3, 4, 8, 9) or "
              "((not include_fourths) and semis(note1, note2) == 5)))")],
    properties=["C02"], battery="name_pairs_flag")
+
+
+# ------------------------------------------------------------------ C03
+
+_c("invert",
+   params={"interval": "list[any]"},
+   returns="list[any]",
+   old={"old_interval": "interval"},
+   ensures=[("reversed", "list_reverse_of(result, old_interval)"),
+            ("argument-unchanged", "list_same(interval, old_interval)"),
+            ("fresh-list", "not same_object(result, interval)")],
+   modifies=["param:interval"],
+   notes="the body reverses its argument in place twice; 'modifies' admits that, 'argument-unchanged' "
+         "proves the contents are restored for every list of every length",
+   properties=["C03"], battery="lists")
+
+
+_D = "digit(interval[len(interval) - 1])"
+_SG = "(1 if up else -1)"
+_LT = "lup(note[0], %s * (%s - 1))" % (_SG, _D)
+_SEMI = "(maj_semis(%s) if up else (12 - maj_semis(%s)) %% 12)" % (_D, _D)
+_V0NET = "(net(note) if %s == 1 else ctor_net(%s, %s, note))" % (_D, _LT, _SEMI)
+
+_c("from_shorthand",
+   params={"note": "str", "interval": "str", "up": "bool"},
+   requires="len(note) >= 1 and len(interval) >= 1 and cnt_other(interval, 0, len(interval) - 1) == 0",
+   cases=[
+       dict(when="not is_name(note)", returns="False"),
+       dict(when="%s == 0" % _D, returns="False"),
+       dict(when=None, returns="str", ensures=[
+           ("valid-name", "is_name(result)"),
+           ("letter", "result[0] == %s" % _LT),
+           ("exact-accidentals", "net(result) == %s + %s * sh_acc(interval)" % (_V0NET, _SG)),
+           ("semitones", "pc(result) == (pc(note) + %s * (maj_semis(%s) + sh_acc(interval))) %% 12" % (_SG, _D)),
+           ("never-mixes", "implies(%s != 1 or canon(note), canon(result))" % _D),
+       ]),
+   ],
+   loops={2: dict(index="k", ghost={"v0": "val"},
+                  inv=[("valid", "is_str(val) and is_name(val) and val[0] == v0[0]"),
+                       ("accidentals-so-far",
+                        "net(val) == net(v0) + %s * (cnt_sharp(interval, 0, k) - cnt_flat(interval, 0, k))" % _SG),
+                       ("canonical-kept", "implies(canon(v0), canon(val))"),
+                       ("still-in-prefix", "cnt_other(interval, 0, k) == 0")],
+                  types={"val": "str"})},
+   split=[{"bind": {"up": u}, "assume": "interval[len(interval) - 1] == %r" % d} for u in (True, False) for d in "1234567"] +
+         [{"bind": {"up": u}, "assume": "%s == 0" % _D} for u in (True, False)],
+   properties=["C03"], battery="name_shorthand_dir")
+
+_c("determine.<locals>.get_val",
+   params={"note": "str"}, requires="len(note) >= 1", returns="int",
+   ensures=[("net-accidentals", "result == net(note)")],
+   loops={1: dict(index="k", inv=[("running", "r == net_upto(note, 1 + k)")])},
+   properties=["C03"])
+
+_N = "letters_spanned(note1, note2)"
+_OFF = "(asc_distance(note1, note2) - maj_semis(%s + 1))" % _N
+_c("determine",
+   params={"note1": "str", "note2": "str", "shorthand": "bool"},
+   requires=[("names", "is_name(note1) and is_name(note2)"),
+             ("distance-0-to-11", "0 <= asc_distance(note1, note2) and asc_distance(note1, note2) <= 11")],
+   cases=[
+       dict(when="shorthand", returns="str", ensures=[
+           ("shorthand-accidentals-and-degree", "sh_is(result, %s, %s + 1)" % (_OFF, _N))]),
+       dict(when=None, returns="str", ensures=[
+           ("quality-and-number", "result == quality_name(%s, %s) + ' ' + number_name(%s)" % (_OFF, _N, _N))]),
+   ],
+   split=[{"assume": "note1[0] == %r and note2[0] == %r" % (a, b)} for a in "CDEFGAB" for b in "CDEFGAB"],
+   properties=["C03"], battery="name_pairs_flag")
